@@ -47,7 +47,7 @@ fn gen_event(rng: &mut Rng, cal: &Calib, force_wire: Option<usize>, force_pad: O
     for _ in 0..nw {
         let l = pick_len(rng).max(64);
         let kind = rng.below(4);
-        wires.insert(rng.usize(256), (0..l).map(|i| match kind { 0 => rng.next() as i16, 1 => [i16::MIN, i16::MAX][i % 2], 2 => 3000 + (rng.gauss() * 20.0) as i16, _ => -((i * 37) as i16) }).collect());
+        wires.insert(rng.usize(256), (0..l).map(|i| match kind { 0 => rng.next() as i16, 1 => [i16::MIN, i16::MAX][i % 2], 2 => 3000 + (rng.gauss() * 20.0) as i16, _ => (-((i * 37) as i64)) as i16 }).collect());
     }
     if let Some(w) = force_wire {
         wires.insert(w, (0..wd + 40).map(|_| rng.next() as i16).collect());
